@@ -125,6 +125,16 @@ type Replay struct {
 	ShrinkRun int             `json:"shrink_executions"`
 	Plan      json.RawMessage `json:"plan"`
 	Log       []string        `json:"log,omitempty"`
+	// Process history: the run seeds of the plans the exploring process executed before this one (their plans are
+	// regenerated from the seeds). A violation that needs state left behind by earlier runs of the same process -
+	// package-level caches, pools, memoised configuration - does not show in a fresh process on the plan alone;
+	// the driver then keeps the (reduced) history and sets WithHistory, and replay executes it first.
+	Tier        string   `json:"tier,omitempty"`
+	PrefixSeeds []uint64 `json:"process_history_run_seeds,omitempty"`
+	WithHistory bool     `json:"replay_with_process_history,omitempty"`
+	// Unminimised is the failing plan before minimisation (minimisation candidates ran in the exploring process
+	// too and may have relied on what it had accumulated); dropped once the file is final.
+	Unminimised json.RawMessage `json:"unminimised_plan,omitempty"`
 }
 
 // WorkerResult is written by a worker process for the driver.
@@ -280,6 +290,7 @@ func exploreMode(t *testing.T, spec *Spec, res *WorkerResult) {
 	known := loadKnown(os.Getenv("VERIF_KNOWN"), spec.Property)
 	sigs := map[string]struct{}{}
 	ilv := map[string]struct{}{}
+	var history []uint64
 	start := time.Now()
 	for i := 0; i < maxRuns; i++ {
 		if time.Since(start) > budget {
@@ -288,6 +299,7 @@ func exploreMode(t *testing.T, spec *Spec, res *WorkerResult) {
 		runSeed := Mix(seed, uint64(worker)+1, uint64(i)+1)
 		plan := mustJSON(spec.Generate(NewRng(runSeed), tier))
 		o := execute(t, spec, plan)
+		history = append(history, runSeed)
 		res.Runs++
 		if o.Evaluations > 1 {
 			res.Runs += o.Evaluations - 1
@@ -354,7 +366,8 @@ func exploreMode(t *testing.T, spec *Spec, res *WorkerResult) {
 			v := o.Violation
 			minPlan, minOut, n := minimise(t, spec, plan, o)
 			rep := &Replay{Property: spec.Property, World: spec.World, Seed: seed, RunSeed: runSeed,
-				Violation: minOut.Violation, Minimised: n > 0, ShrinkRun: n, Plan: minPlan, Log: minOut.Log}
+				Violation: minOut.Violation, Minimised: n > 0, ShrinkRun: n, Plan: minPlan, Log: minOut.Log,
+				Tier: tier, PrefixSeeds: history[:len(history)-1], Unminimised: plan}
 			dir := os.Getenv("VERIF_REPLAY_DIR")
 			if dir == "" {
 				dir = "/verif/replays"
@@ -480,6 +493,13 @@ func replayMode(t *testing.T, spec *Spec, res *WorkerResult) {
 	if err := json.Unmarshal(b, &rep); err != nil {
 		res.Error = err.Error()
 		return
+	}
+	if rep.WithHistory {
+		// the plans this process' predecessor had executed before: their verdicts do not matter here
+		for _, rs := range rep.PrefixSeeds {
+			execute(t, spec, mustJSON(spec.Generate(NewRng(rs), rep.Tier)))
+		}
+		fmt.Printf("REPLAY %s: %d earlier runs of the process re-executed first\n", spec.Property, len(rep.PrefixSeeds))
 	}
 	o := execute(t, spec, rep.Plan)
 	res.Runs = 1
